@@ -30,6 +30,7 @@ def run_shard(ctx):
     qmgen.drive_histories(ctx, OWN, qmgen.saturated_pool_history(), ctx.n(600, 10000), nontrivial, salt=9)
 
     qmgen.drive_histories(ctx, OWN, qmgen.flush_busy_history(), ctx.n(600, 10000), nontrivial, salt=10)
+    qmgen.drive_histories(ctx, OWN, qmgen.announce_window_history(), ctx.n(800, 12000), nontrivial, salt=11)
 
 
 def replay(case):
